@@ -10,6 +10,7 @@ every operation before the last succeeding identically over the real and the cle
 `Full_scan_opsW_unsat`: `¬ Full_scan_opsW_statement Inv` for every `Inv`.
 -/
 import LolHtml.Thm.Full11
+import LolHtml.Lemmas.HintCtl
 
 namespace LolHtml.Thm.Full
 open LolHtml LolHtml.Model LolHtml.Model.Full LolHtml.Model.Handlers LolHtml.EditModel LolHtml.Lemmas.Full
@@ -101,5 +102,166 @@ theorem Full_scan_opsW_unsat (Inv : ∀ cfg, Disp (FullStH cfg) → Prop) : ¬ F
     simp only at this
     rw [h3] at this
     cases this
+
+/-! ## the statement with guarded hints
+
+The hint operations have to be guarded too: no tag hint while a tag hint is outstanding. (Run-level companion: after a
+hint answered `lex` the parser's next sink call is `handle_tag` — `loadBookmark` switches to the lexer, which re-lexes the
+tag.) `guardHints` wraps a sink; `CtlRelX` is `CtlRelG` over the wrapped sinks. -/
+
+def hintSite : String := "tag hint while a tag hint is outstanding"
+
+/-- refuse a tag hint while `got_flags_from_hint` or `pending_element_aux_info_req` -/
+def guardHints {γ : Type} (ops : SinkOps (Disp γ)) : SinkOps (Disp γ) :=
+  { ops with
+    startTagHint := fun n ns d =>
+      if d.gotFlagsFromHint || d.pendingAux then (d, .error (.panic hintSite)) else ops.startTagHint n ns d
+    endTagHint := fun n d =>
+      if d.gotFlagsFromHint || d.pendingAux then (d, .error (.panic hintSite)) else ops.endTagHint n d }
+
+structure CtlRelX {γ : Type} (w : World γ) (c2 : Controller γ) (K : SGuard (Disp γ)) (Inv : Disp γ → Prop) (G : Err → Prop) : Prop where
+  ops : ∀ inp, RelE.OpsRelE (guardHints (guardS K (dispOps w.ctl))) (guardHints (guardS K (dispOps c2))) inp (IRel Inv) G
+  bail : w.ctl.bailOut = c2.bailOut
+  flush : ∀ d d' inp k, d.flushRemaining inp k = .ok d' → Inv d → Inv d'
+  handleEnd : ∀ d, Inv d → w.ctl.handleEnd d.ctl = c2.handleEnd d.ctl ∨ ∃ e, G e ∧ (w.ctl.handleEnd d.ctl).2.2 = some e
+  initial : ∀ g, w.ctl.initialFlags g = c2.initialFlags g
+  np : ∀ e, G e → (∀ s, e ≠ .panic s) ∧ (∀ s, e ≠ .internal s)
+
+/-- **the operation-level statement with all four operations guarded** -/
+def Full_scan_opsX_statement (Inv : ∀ cfg, Disp (FullStH cfg) → Prop) : Prop :=
+  ∀ cfg : Cfg, (∀ enc, Inv cfg (Disp.new (fullCtlH cfg) (FullSt.init cfg, none) enc)) ∧
+    CtlRelX (genWorldH cfg) (cleanCtlH cfg) (withArgs argSite (andGuard kindGuard wmGuard)) (Inv cfg) NP
+
+/-! ### the invariant -/
+
+/-- the same controller state up to the log and the invocation counters of the text / comment / doctype handlers -/
+structure EqT (s s' : St) : Prop where
+  disp : s'.disp = s.disp
+  vm : s'.vm = s.vm
+  descs : s'.descs = s.descs
+  pending : s'.pending = s.pending
+  payloads : s'.payloads = s.payloads
+  ord : s'.ord = s.ord
+  fault : s'.fault = s.fault
+  inv : ∀ h, invGet s'.inv (kElement, h) = invGet s.inv (kElement, h)
+
+theorem EqT.refl (s : St) : EqT s s := ⟨rfl, rfl, rfl, rfl, rfl, rfl, rfl, fun _ => rfl⟩
+
+theorem EqT.trans {a b c : St} (h1 : EqT a b) (h2 : EqT b c) : EqT a c :=
+  ⟨h2.disp.trans h1.disp, h2.vm.trans h1.vm, h2.descs.trans h1.descs, h2.pending.trans h1.pending,
+   h2.payloads.trans h1.payloads, h2.ord.trans h1.ord, h2.fault.trans h1.fault, fun h => (h2.inv h).trans (h1.inv h)⟩
+
+/-- the four protocol states; the post-hint states allow an open text node and text / comment / doctype tokens
+delivered since the hint (`EqT`) -/
+inductive InvX (cfg : Cfg) (d : Disp (FullStH cfg)) : Prop
+  | idle (hp : d.pendingAux = false) (hg : d.gotFlagsFromHint = false) (hJ : J2 cfg d.ctl.1.1)
+  | startLex (s : St) (ln : LocalName) (ns : Model.Ns) (f : Model.Flags) (hJ : J2 cfg s)
+      (ha : (startTag s ln ns).2 = .flags f) (hc : EqT (startTag s ln ns).1 d.ctl.1.1) (hf : d.flags = f)
+      (hg : d.gotFlagsFromHint = true) (hp : d.pendingAux = false) (hk : d.ctl.2 = some true)
+  | auxPend (s : St) (ln : LocalName) (ns : Model.Ns) (hJ : J2 cfg s)
+      (ha : (startTag s ln ns).2 = .infoRequest) (hc : EqT (startTag s ln ns).1 d.ctl.1.1)
+      (hg : d.gotFlagsFromHint = false) (hp : d.pendingAux = true)
+  | endLex (s : St) (ln : LocalName) (hJ : J2 cfg s) (hc : EqT (endTag s ln).1 d.ctl.1.1)
+      (hg : d.gotFlagsFromHint = true) (hp : d.pendingAux = false) (hk : d.ctl.2 = some false)
+
+theorem J2_congr {cfg : Cfg} {s s' : St} (h : EqT s s') (hJ : J2 cfg s) : J2 cfg s' := by
+  obtain ⟨hJ1, hP⟩ := hJ
+  refine ⟨⟨by rw [h.fault]; exact hJ1.fault, ⟨hJ1.valid.toGood.of_eq h.disp h.payloads, ?_⟩, ?_, ?_⟩, ?_⟩
+  · have := hJ1.valid.sync
+    unfold Sync at this ⊢
+    rw [h.vm, h.descs]; exact this
+  · obtain ⟨sp, hsp⟩ := hJ1.scope
+    exact ⟨sp, by rw [scopeState_congr h.disp h.vm h.descs]; exact hsp⟩
+  · intro vm hv; rw [h.vm] at hv; exact hJ1.vm vm hv
+  · exact hP.of_frame (by rw [h.disp]) h.payloads (by rw [h.ord]; exact Nat.le_refl _)
+
+/-! ### the controllers with the ghost -/
+
+theorem hintCtl_sim {γ : Type} {c1 c2 : Controller γ} {D : γ → Prop} {G : Err → Prop} (h : Chunk.R.CtlSim c1 c2 D G) :
+    Chunk.R.CtlSim (hintCtl c1) (hintCtl c2) (fun g => D g.1) G where
+  flags := fun g hg => h.flags g.1 hg
+  emit := fun g hg => h.emit g.1 hg
+  startTag := fun g n ns hg => (h.startTag g.1 n ns hg).elim
+    (fun ⟨he, hD⟩ => Or.inl ⟨by simp only [hintCtl, he], hD⟩) (fun ⟨e, hG, he⟩ => Or.inr ⟨e, hG, he⟩)
+  auxInfo := fun g i hg => (h.auxInfo g.1 i hg).elim
+    (fun ⟨he, hD⟩ => Or.inl ⟨by simp only [hintCtl, he], hD⟩) (fun ⟨e, hG, he⟩ => Or.inr ⟨e, hG, he⟩)
+  endTag := fun g n hg => ⟨by simp only [hintCtl, (h.endTag g.1 n hg).1], (h.endTag g.1 n hg).2⟩
+  token := fun g t hg => (h.token g.1 t hg).elim
+    (fun ⟨he, hD⟩ => Or.inl ⟨by simp only [hintCtl, he], hD⟩) (fun ⟨e, hG, he⟩ => Or.inr ⟨e, hG, he⟩)
+  handleEnd := fun g hg => (h.handleEnd g.1 hg).elim
+    (fun ⟨he, hD⟩ => Or.inl ⟨by simp only [hintCtl, he], hD⟩) (fun ⟨e, hG, he⟩ => Or.inr ⟨e, hG, he⟩)
+  bailOut := by simp only [hintCtl, h.bailOut]
+
+/-- the real and the cleaned controller with the ghost, with the provenance of the parting error -/
+theorem fullCtlH_sim (cfg : Cfg) :
+    Chunk.R.CtlSim (fullCtlH cfg) (cleanCtlH cfg) (fun g => Chunk.R.DO cfg g.1)
+      (fun e => Chunk.R.GP e ∧ Chunk.R.CbErr (fullCtl cfg) (Chunk.R.DO cfg) e) :=
+  hintCtl_sim (Chunk.R.fullCtl_sim_prov cfg)
+
+/-- the class of the errors of a protocol operation over the real controller -/
+def HO (e : Err) : Prop := e = .handler ∨ DispOwn e
+
+/-- post-condition of a protocol operation over the real controller with the ghost -/
+def UPost {α : Type} (cfg : Cfg) (r : DRes (FullStH cfg) α) : Prop :=
+  (∀ a, r.2 = .ok a → InvX cfg r.1) ∧ (∀ e, r.2 = .error e → HO e)
+
+theorem own_not_U2 {e : Err} (ho : DispOwn e) (h1 : ErrOK U1 e) (h2 : ErrNot T2 e) : False := by
+  rcases ho with h | h | h | h <;> subst h
+  · exact h2 (by simp [T2])
+  · exact h2 (by simp [T2])
+  · simp [ErrOK, U1] at h1
+  · simp [ErrOK, U1] at h1
+
+/-- **glue**: an operation with `UPost` over the real controller that is stepwise the operation over the cleaned
+controller, whose failures are not the dispatcher's own, satisfies the `OpsRelE` clause -/
+theorem rel_of_unary {α : Type} {cfg : Cfg} {r1 r2 : DRes (FullStH cfg) α}
+    (hstep : Chunk.R.DStep (fun g : FullStH cfg => Chunk.R.DO cfg g.1)
+      (fun e => Chunk.R.GP e ∧ Chunk.R.CbErr (fullCtl cfg) (Chunk.R.DO cfg) e) r1 r2)
+    (hu : UPost cfg r1) (hsafe : ∀ e, r2.2 = .error e → ¬ DispOwn e) :
+    (IRel (InvX cfg) r1.1 r2.1 ∧ r1.2 = r2.2) ∨ ∃ e, NP e ∧ r1.2 = .error e := by
+  rcases hstep with ⟨he, _⟩ | ⟨e, ⟨hG, hc⟩, he⟩
+  · cases hr : r1.2 with
+    | ok a =>
+      subst he
+      exact Or.inl ⟨⟨rfl, hu.1 a hr⟩, hr.symm⟩
+    | error e =>
+      right
+      refine ⟨e, ?_, rfl⟩
+      rcases hu.2 e hr with h | h
+      · subst h; trivial
+      · subst he
+        exact absurd h (hsafe e hr)
+  · exact (no_gp hG hc (hu.2 e he)).elim
+
+theorem endTag_fault_none (cfg : Cfg) (s : St) (hJ : J2 cfg s) (ln : LocalName) : (endTag s ln).1.fault = none := by
+  obtain ⟨c1, c2⟩ := (J2_evInv cfg).end_ s ln [] [] ⟨0, 0⟩ hJ
+  cases hst : (ctlStep cfg s (.end_ ln (.endTag [] [] ⟨0, 0⟩))).2 with
+  | some e => exact (c2 e hst).elim
+  | none =>
+    have hJ' := (c1 hst).1.fault
+    simp only [ctlStep] at hJ'
+    unfold tokIf at hJ'
+    split at hJ'
+    · rw [(Chunk.R.token_frame cfg _ _).2] at hJ'
+      exact hJ'
+    · exact hJ'
+
+theorem invX_DO {cfg : Cfg} {d : Disp (FullStH cfg)} (h : InvX cfg d) : Chunk.R.DO cfg d.ctl.1 := by
+  have hf : d.ctl.1.1.fault = none ∨ True := Or.inr trivial
+  have key : ∀ s : St, s.fault = none → ∀ g : FullSt cfg, g.1.fault = s.fault → Chunk.R.DO cfg g := by
+    intro s hs g hg
+    refine ⟨?_, fun b _ => ?_⟩
+    · show Chunk.R.NGF g.1
+      unfold Chunk.R.NGF; rw [hg, hs]; intro hh; cases hh
+    · show g.1.fault ≠ some b
+      rw [hg, hs]; intro hh; cases hh
+  cases h with
+  | idle hp hg hJ => exact key _ hJ.1.fault _ rfl
+  | startLex s ln ns f hJ ha hc hf' hg hp hk =>
+    exact key _ (by rw [Chunk.R.startTag_fault]; exact hJ.1.fault) _ hc.fault
+  | auxPend s ln ns hJ ha hc hg hp =>
+    exact key _ (by rw [Chunk.R.startTag_fault]; exact hJ.1.fault) _ hc.fault
+  | endLex s ln hJ hc hg hp hk =>
+    exact key _ (endTag_fault_none cfg s hJ ln) _ hc.fault
 
 end LolHtml.Thm.Full
